@@ -32,6 +32,8 @@ def owners(item):
             return o
         if form == "rel" or (form == "pcr" and labelref):
             return {"C03"}
+        if form == "pcr":
+            return {"C03", "C01"} | ({"C04"} if src.startswith("expr") or src.startswith("equ") else set())
         o = set()
         if src == "lit" or src == "" or src.startswith("equ") or labelref:
             o.add("C01")
@@ -136,3 +138,53 @@ def replay_case(ctx, rp):
     rec = asmio.assemble(list(c.lines))
     print(json.dumps({k: rec[k] for k in ("outcome", "msg", "exc", "site", "obs", "image", "symtab", "origin")}, indent=1))
     return rec
+
+
+def run_text_suite(ctx, name, programs):
+    """programs: list of line lists with no abstract form.  For every ACCEPTED program the statements are judged as "raw"
+    (label and mnemonic as the assembler parsed them): bytes decode as one instruction of that mnemonic, addresses advance by the
+    bytes emitted, image = concatenation placed at the origin, labels in the symbol table name their statement's address."""
+    t0 = time.time()
+    triples = [(k, [], lines) for k, lines in enumerate(programs)]
+    traces, extras = asmrun.run(triples)
+    programs = programs[:len(traces)]
+    for t in traces:
+        t["focus"] = 0
+        x = extras[t["id"]]
+        if t["outcome"] == "stmtcount":
+            t["outcome"] = "ok"
+        if t["outcome"] == "ok" and not x["adapter"]:
+            t["prog"] = [asmio.stmt(mn, "raw", label=lb) for lb, mn in x["stmts"]]
+            rec_obs = t["obs"]
+            if len(rec_obs) != len(t["prog"]):
+                t["prog"], t["obs"], t["image"], t["symtab"] = [], [], [], []
+        else:
+            t["obs"], t["image"], t["symtab"] = [], [], []
+            if x["adapter"] and t["outcome"] == "ok" and ctx.prop == "C02":
+                # the listing and the statement's bytes / address disagree: a fault of the listing (C02), nothing else is judged for this text
+                import re as _re
+                why = _re.sub(r"\d+", "N", x["adapter"])
+                ctx.report({"clause": "listing", "class": {"form": "raw", "text": "free"}, "symptom": {"why": why}},
+                           {"kind": "asm", "lines": programs[t["id"]], "what": x["adapter"], "suite": name})
+    verd, st = tlc.bulk("Tr_Asm", traces, nproc=NPROC_JVM)
+    outcomes, nviol = {}, 0
+    for t in traces:
+        outcomes[t["outcome"]] = outcomes.get(t["outcome"], 0) + 1
+        x = extras[t["id"]]
+        for it in verd[t["id"]]["items"]:
+            if ctx.prop not in owners(it):
+                continue
+            cls = dict(it["class"], form="raw", text="free")
+            item = {"clause": it["clause"], "class": cls, "symptom": dict(it["symptom"], site=x["site"], exc=x["exc"])}
+            if it["clause"] in ("outcome", "diagnames"):
+                item["symptom"]["why"] = t["outcome"]
+            k = it["k"]
+            if ctx.report(item, {"kind": "asm", "lines": programs[t["id"]], "stmt_index": k, "outcome": t["outcome"], "msg": x["msg"],
+                                 "obs": t["obs"][k - 1] if t["obs"] and 0 < k <= len(t["obs"]) else None, "suite": name}) == "violation":
+                nviol += 1
+        if not x["input_intact"] and ctx.prop == "C17":
+            ctx.report({"clause": "input-modified", "class": {"form": "raw"}, "symptom": {}}, {"kind": "asm", "lines": programs[t["id"]]})
+        ctx.add_class("text|%s|%s" % (t["outcome"], (x["site"] or x["msg"])[:30]))
+    ctx.add_suite(name, len(programs), len(traces), time.time() - t0, {"outcomes": outcomes, "violating_items": nviol})
+    if programs:
+        ctx.sample({"suite": name, "lines": programs[len(programs) // 2], "outcome": traces[len(programs) // 2]["outcome"]})
